@@ -263,6 +263,10 @@ class AsmWorld(World):
             if op["pt"] >= len(pts):
                 return "skip"
             pt = pts[op["pt"]]
+            if name == "kcmf" and self.actor == "PhaseField" and self.n_lagrange:
+                # no public API attaches Lagrange conditions to a phase-field simulation; its own Get_K_C_M_F keeps
+                # per-problem flags and whether it notices a size change is a staleness question (C14), not C03's
+                return "skip"
             before = self._cache_keys()
             try:
                 with ctx.sut():
